@@ -183,7 +183,8 @@ macro_rules! float_checks {
                 {
                     return Err(format!("{}: from_u64/from_i64/NumCast({:#x}) differ from native", tn, raw));
                 }
-                if bits(<$n as From<$p>>::from(-p)) != bits(-n) && !n.is_nan() {
+                // negation is a pure sign-bit flip (also for NaNs), so it is compared bit-for-bit
+                if bits(<$n as From<$p>>::from(-p)) != bits(-n) {
                     return Err(format!("{}: -({:?})", tn, n));
                 }
             }
